@@ -216,13 +216,22 @@ Definition enc_dinfo (fl : flags) (inf : list info_d) : msg :=
   opt (fl_usid fl) (5, WPacked (deltas32 0 (map id_usid inf))) ++
   opt (fl_visible fl) (6, WPacked (map (fun i => enc_bool (id_visible i)) inf)).
 
-Lemma enc_dense_eq d :
+Lemma enc_dense_eq d : dense_omitted d = false ->
   enc_dense d =
-  (1, WPacked (deltas64 0 (map dn_id (de_nodes d)))) ::
-  opt (de_hasinfo d) (5, WMsg (enc_dinfo (de_cols d) (map dn_info (de_nodes d)))) ++
-  (8, WPacked (deltas64 0 (map dn_lat (de_nodes d)))) :: (9, WPacked (deltas64 0 (map dn_lon (de_nodes d)))) ::
-  opt (de_haskv d) (10, WPacked (flat_map kv_of (de_nodes d))).
-Proof. reflexivity. Qed.
+  ((1, WPacked (deltas64 0 (map dn_id (de_nodes d)))) ::
+   opt (de_hasinfo d) (5, WMsg (enc_dinfo (de_cols d) (map dn_info (de_nodes d)))) ++
+   (8, WPacked (deltas64 0 (map dn_lat (de_nodes d)))) :: (9, WPacked (deltas64 0 (map dn_lon (de_nodes d)))) ::
+   opt (de_haskv d) (10, WPacked (flat_map kv_of (de_nodes d)))).
+Proof. intros H. unfold enc_dense. rewrite H. reflexivity. Qed.
+
+Lemma enc_dense_omitted d : dense_omitted d = true -> de_nodes d = [] /\ enc_dense d = [].
+Proof.
+  intros H. unfold enc_dense. rewrite H. unfold dense_omitted in H.
+  apply andb_prop in H. destruct H as [H Hk]. apply andb_prop in H. destruct H as [H Hi].
+  apply andb_prop in H. destruct H as [_ H].
+  destruct (de_nodes d); [|discriminate]. destruct (de_hasinfo d), (de_haskv d); try discriminate.
+  split; reflexivity.
+Qed.
 
 Lemma dinfo_enc fl inf ic :
   exists ic' fi, dinfo_loop (enc_dinfo fl inf) (ic, if0) = Ok (ic', fi) /\ nil_info fi ic' = icols_of fl pv0 inf.
@@ -237,12 +246,14 @@ Lemma dense_loop_enc hasinfo fl haskv ns dc :
        opt hasinfo (5, WMsg (enc_dinfo fl (map dn_info ns))) ++
        (8, WPacked (deltas64 0 (map dn_lat ns))) :: (9, WPacked (deltas64 0 (map dn_lon ns))) ::
        opt haskv (10, WPacked (flat_map kv_of ns))) (dc, df0) = Ok s
+    /\ dense_empty (snd s) = false
     /\ dense_fixup s = Ok (dcols_of (if hasinfo then fl else fl0) haskv (Some (deltas64 0 (map dn_id ns))) pv0 ns).
 Proof.
   destruct dc as [c1 ic c3 c4 c5].
   destruct (dinfo_enc fl (map dn_info ns) ic) as (ic' & fi & E1 & E2).
   destruct hasinfo, haskv; simpl; try (unfold dense_step; simpl; rewrite E1; simpl);
-    eexists; (split; [reflexivity|]); unfold dense_fixup, dcols_of, keep, optc; simpl; try rewrite E2; reflexivity.
+    eexists; (split; [reflexivity|]); (split; [reflexivity|]);
+    unfold dense_fixup, dcols_of, keep, optc; simpl; try rewrite E2; reflexivity.
 Qed.
 
 Lemma extract_dense_enc b fl kv ns q : Forall (row_ok b fl kv) ns ->
@@ -266,9 +277,13 @@ Proof.
   intros Hv.
   assert (Hrows : Forall (row_ok b (efl d) (de_haskv d)) (de_nodes d)).
   { apply Forall_forall. intros n Hn. rewrite forallb_forall in Hv. apply row_ok_of. apply Hv. exact Hn. }
-  unfold scan_dense. rewrite enc_dense_eq.
-  destruct (dense_loop_enc (de_hasinfo d) (de_cols d) (de_haskv d) (de_nodes d) dc) as (s & E1 & E2).
-  rewrite E1. cbn [rbind]. rewrite E2. cbn [rbind].
+  unfold scan_dense. destruct (dense_omitted d) eqn:Hom.
+  { (* the empty DenseNodes message: the early return *)
+    destruct (enc_dense_omitted d Hom) as [Hn He]. rewrite He, Hn.
+    exists dc. simpl. rewrite app_nil_r. reflexivity. }
+  rewrite (enc_dense_eq d Hom).
+  destruct (dense_loop_enc (de_hasinfo d) (de_cols d) (de_haskv d) (de_nodes d) dc) as (s & E1 & E0 & E2).
+  rewrite E1. cbn [rbind]. rewrite E0. rewrite E2. cbn [rbind].
   destruct (extract_dense_enc b (efl d) (de_haskv d) (de_nodes d) q Hrows) as (dc' & E3).
   unfold efl in E3. rewrite E3. exists dc'. f_equal. f_equal. f_equal. apply map_ext. intros n.
   rewrite (node_of_enode b d n). reflexivity.
